@@ -130,6 +130,18 @@ CHECKS = {
              'interleavings is outside the technique.',
         technique='bounded runtime contracts (liveness / duplication monitor) on walk() under mutation',
         ref='DESIGN.md section 4 C15'),
+    'C16': dict(
+        category='exploration',
+        text='Bounded: for every module / function / lambda / class scope of 25 scope programs (nested scopes, '
+             'global/nonlocal, imports, augmented assignment, deletion, except and pattern captures, decorators, '
+             'defaults, annotations, comprehensions incl. first iterables, walrus) the Name/arg nodes yielded by '
+             'walk(scope=True) equal the language reference\'s scope membership, and scope_symbols(full=True) names '
+             'and global/nonlocal/local/free classification equal symtable (PEP 709 adjustment stated in the oracle). '
+             'Three genuine defects are listed as known findings (F-C16-1..3).',
+        note='The specification IS CPython\'s compiler: symtable is an assumed external oracle. Nothing proved.',
+        technique='bounded runtime contracts on scope analysis with symtable and a language-reference scope model '
+                  'as oracles',
+        ref='DESIGN.md section 4 C16'),
     'C20': dict(
         category='proof',
         text='Proof of the option store algebra for ALL option mappings (abstract keys/values, z3 arrays): '
